@@ -169,8 +169,8 @@ class NatafTransformation:
                         self.rhoZ[ i, j ] = rst[ 0 ][ 0 ]
                         self.rhoZ[ j, i ] = self.rhoZ[ i, j ]
                         break
-                
-                raise ValueError( "Nataf transformation cannot be performed" )
+                else:
+                    raise ValueError( "Nataf transformation cannot be performed" )
 
         try:
             self.L = np.linalg.cholesky( self.rhoZ )
